@@ -49,6 +49,12 @@ def coq_item(it):
 
 def run_dload(chk, rng, ncases):
     cases = stage_lin.gen_cases(rng, ncases, grounds=(None, None, 'ideal', 'ideal', 'real'))
+    # three-wire chains in every combination of directions with distributed loads on one or two of the wires
+    for c_ in probe_cases(rng):
+        for sub, kind in (((1,), 'skin'), ((2,), 'ins'), ((1, 3), 'skin'), ((3,), 'ins')):
+            sp = json.loads(json.dumps(c_['spec']))
+            sp['loads'] = [dict(kind='skin', tag=t, cond=3e5 * t) if kind == 'skin' else dict(kind='ins', tag=t, radius_factor=1.5 + 0.2 * t, eps=2.0 + t) for t in sub]
+            cases.append(dict(id=3 * 10 ** 6 + len(cases), seed=rng.randrange(10 ** 9), spec=sp, fixed_loads=True))
     shards = [cases[k::NCPU] for k in range(NCPU) if cases[k::NCPU]]
     res = run_workers('dload', [dict(cases=s) for s in shards])
     results = []
@@ -102,6 +108,43 @@ def run_dload(chk, rng, ncases):
     elif not ok_model:
         chk.tie_broken('correspondence', 'dload', 'model (Model/Loads.v, Corr/LoadDriver.v) does not compile')
     chk.stages['dload'] = dict(cases=len(cases), load_pulse_pairs=nitems, compared=ncmp, disagreements=nbad)
+    attach_stage(chk, [r for r in results if 'error' not in r])
+
+ATTACH_HEADER = '''From Coq Require Import List Bool Arith.
+Import ListNotations.
+From PM Require Import Model.Attach.
+Set Printing Depth 10000000. Set Printing Width 1000000.
+Definition on_lists (L : list nat) (n : nat) (ps : list (nat * nat * nat)) : list (list nat) :=
+  map (fun t => match t with (o, g0, g1) => filter (attached (fun g => existsb (Nat.eqb g) L) (mkAP o g0 g1)) (seq 0 n) end) ps.
+'''
+def attach_stage(chk, results):
+    """Model/Attach.v evaluated in Coq on the real pulse layout and the set of loaded objects: the objects whose load list a
+    pulse is on must be the real ones, each pulse at most once per list"""
+    items = [(r, k, a) for r in results if r.get('attach') for k, a in r['attach'].items() if a['loaded']]
+    if not vo_ok('Model/Attach.v'):
+        chk.tie_broken('correspondence', 'attach', 'model (Model/Attach.v) does not compile'); return
+    if not items:
+        chk.stages['attach'] = dict(models=0); return
+    body = ATTACH_HEADER + '\n'.join('Eval vm_compute in (on_lists %s %d%%nat %s).' % (
+        coq_list(['%d%%nat' % g for g in a['loaded']]), a['nobj'],
+        coq_list(['(%d%%nat, %d%%nat, %d%%nat)' % (p[0], p[1], p[2]) for p in a['pulses']])) for r, k, a in items) + '\n'
+    rc, out = coq_eval('attach_%d' % os.getpid(), body)
+    blocks = re.findall(r'(?s)=\s*(\[.*?\])\s*:\s*list \(list nat\)', out)
+    if rc != 0 or len(blocks) != len(items):
+        chk.tie_broken('correspondence', 'attach', 'model evaluation failed: ' + out[-500:]); return
+    nbad = npul = junc = 0
+    for (r, k, a), b in zip(items, blocks):
+        rows = [[int(x) for x in re.findall(r'\d+', row)] for row in re.findall(r'\[([^\[\]]*)\]', b)]
+        for p, mrow in zip(a['pulses'], rows):
+            npul += 1
+            if p[1] != p[2]: junc += 1
+            if sorted(mrow) != p[3] or p[4] > 1:
+                nbad += 1
+                chk.notes.setdefault('failing_specs', []).append(r['spec'])
+                chk.tie_broken('correspondence', 'attach', '%s loads, loaded objects %r: pulse owned by object %d with halves on objects %d / %d is on the lists of %r (multiplicity %d), the model says %r'
+                               % (k, a['loaded'], p[0], p[1], p[2], p[3], p[4], sorted(mrow)))
+                break
+    chk.stages['attach'] = dict(models=len(items), pulses=npul, junction_pulses=junc, disagreements=nbad)
 
 def probe_cases(rng):
     """three-wire chains in every combination of wire directions (which end of the later wire meets the earlier one),
